@@ -105,9 +105,14 @@ def prop(spec, rec):
             sc.run_sim(h)
         require(h.sim.iteration == m.end and h.sim.event_queue.empty(), "run_completes_after_scheduler_swap", lambda: "iteration %r, model end %r" % (h.sim.iteration, m.end))
     sim = h.sim
+    labels = sc.scenario_labels(spec)
+    if spec.get("scribble_results"):
+        # the caller has post-processed the exported tables in place before looking at the books:
+        # the simulator's own record is not his to change that way
+        sc.scribble_on_results(sim)
+        labels.add("exported_result_tables_edited_in_place")
     R, P = sim.charging_rates, sim.pilot_signals
     period = spec["period"]
-    labels = sc.scenario_labels(spec)
     multi = False
     for sid, s in m.sessions.items():
         ev = h.evs[sid]
@@ -232,6 +237,7 @@ def subchecks(tier):
 def ledger_cases(draw):
     spec = draw(sc.scenarios())
     spec["probing_scheduler"] = draw(st.booleans())
+    spec["scribble_results"] = draw(st.integers(0, 2)) == 0
     if draw(st.integers(0, 2)) == 0:
         spec["swap_scheduler_at"] = draw(st.sampled_from(sc.Model(spec).invocations))
         spec["swap_via_json"] = draw(st.sampled_from([None, None, "string", "path", "buffer"]))
